@@ -122,9 +122,56 @@ def explore(ctx, depth):
                 ctx.fail({'header': h, 'encoding': e.value, 'clause': 'header'}, 'header is not ** + prefix + type', impl=got, expected=exp)
 
 
+    document_level(ctx, depth)
+
+
+def document_level(ctx, depth):
+    """whole documents: every encoding against the grid oracle and the model; plain = stripped extended on the exported texts"""
+    import docrun
+    import kernpy as kp
+    from kernpy.core.tokens import TokenCategory as TC
+    from kernpy.core.tokenizers import Encoding
+    cases = docrun.make_cases(ctx, 12 if depth == 'quick' else 150)
+    combos = []
+    for enc in ENCS:
+        combos.append({'enc': enc, 'include': None, 'exclude': None})
+        combos.append({'enc': enc, 'include': None, 'exclude': [TC.DECORATION]})
+    docrun.run_option_sets(ctx, cases, combos, lambda case: [{}],
+                           'a document exported in one of the six encodings is not the cell-wise view of the source grid in that encoding', 'document in six encodings')
+    for case in cases:
+        if case.doc is None:
+            continue
+        for plain, ext in (('kern', 'ekern'), ('bkern', 'bekern'), ('akern', 'aekern')):
+            a = call(lambda: kp.dumps(case.doc, encoding=Encoding(plain)))
+            b = call(lambda: kp.dumps(case.doc, encoding=Encoding(ext)))
+            ctx.seen({'text': case.text, 'clause': 'document: plain = stripped extended', 'pair': plain})
+            if 'ok' in a and 'ok' in b:
+                exp = '\n'.join('\t'.join(('**' + docrun.PREFIX[plain] + c[2 + len(docrun.PREFIX[ext]):]) if c.startswith('**') else strip(c) for c in ln.split('\t'))
+                                for ln in b['ok'].split('\n'))
+                if a['ok'] != exp:
+                    ctx.fail({'text': case.text, 'clause': f'document: {plain} = stripped {ext}'}, f'{plain} export is not the {ext} export with the separators removed',
+                             impl=a['ok'], expected=exp)
+            elif a != b:
+                ctx.fail({'text': case.text, 'clause': f'document: {plain} / {ext} errors'}, 'one encoding raises and its counterpart does not', impl=a, expected=b)
+            # headers
+            if 'ok' in b:
+                hdr = b['ok'].split('\n')[0].split('\t')
+                want = ['**' + docrun.PREFIX[ext] + h[2:] for h in case.adoc['headers'] if h in ('**kern', '**text', '**dynam', '**dyn', '**harm', '**mxhm', '**fing', '**root')]
+                if hdr != want:
+                    ctx.fail({'text': case.text, 'clause': 'document: headers'}, 'spine headers are not ** + prefix + type', impl=hdr, expected=want)
+
+
 def replay(ctx, payload):
     explore(ctx, 'quick')
 
 
 def reproduce(ctx, key, w):
+    if key == 'F10-separators-stripped':
+        import kernpy as kp
+        d, _ = kp.loads(w['input']['text'])
+        return kp.dumps(d) == w['impl']
+    if key == 'F16-hidden-barline':
+        import kernpy as kp
+        d, _ = kp.loads(w['input']['text'])
+        return kp.dumps(d) == w['impl']
     return False
